@@ -29,7 +29,14 @@ RULE = ("random content-stream programs over m l c v y h re / S s f F f* B B* b 
         "g G rg RG k K cs CS sc scn SC SCN / q Q cm with dyadic operands, under random page CTMs (MediaBox "
         "origin, Rotate) and random dyadic cm matrices (rotations, mirrors, shears, singular); sub-paths are "
         "drawn from: single lines, m-l-h, closed/unclosed axis-aligned loops in both orientations, redundant "
-        "closing l, zero-length segments, lone m, m-h, re followed by more segments, Bezier segments; operators "
+        "closing l, zero-length segments, lone m, m-h, re followed by more segments, Bezier segments; a family "
+        "`cm, re (w, h of either sign), [W|W*], paint` over nine matrix classes (quarter turns, scales, mirrors, "
+        "x-/y-collapsing, shears, 45 degrees, general, zero) checked against theorem C16_rect_under_ctm; documents "
+        "of 2-4 pages run through ONE interpreter (as extract_pages does) whose pages end in a dangling state "
+        "(unpainted segments / closed sub-path / clip rectangle without n / lone m / Bezier / segment after h, "
+        "unmatched q, changed width, dash, colours, CTM, colour spaces) - every page must show exactly what its "
+        "own program demands; pages that invoke (between their path objects) a form XObject whose content ends "
+        "in the same dangling states (tie only: `Do` leaks nothing into the page); operators "
         "with the right operand count and a non-numeric operand (name, array) at every position; a case "
         "is non-trivial when it is a distinct program that paints >= 1 sub-path with >= 1 segment under a "
         "non-identity CTM or a non-default graphics state; `wild` programs (wrong operand counts/types, "
@@ -39,7 +46,9 @@ TRUSTED_BASE = [
     "q/Q/cm operators), PDFLayoutAnalyzer.paint_path and the LTCurve/LTLine/LTRect constructors "
     "(correspondence-checked every run on the same token streams)",
     "tools/translate/gen_c16.py (ast -> Lean) for apply_matrix_pt, mult_matrix, PREDEFINED_COLORSPACE, the "
-    "process_page CTM table and the painting-operator flag table - each also run against the Python original",
+    "process_page CTM table, the painting-operator flag table and the straight-line tests of paint_path (shape "
+    "strings, point indices, redundant-l constants, has_square_coordinates) - each also run against the Python "
+    "original through the model",
     "exact rationals stand for Python floats: every generated operand is dyadic and small enough that all "
     "float operations of the anchored code are exact",
     "PDF writer / content-stream serialiser of the harness and pdfminer's own lexer (properties C01/C14)",
@@ -74,6 +83,24 @@ STATEMENT_STATUS: Dict[str, str] = {
     "C16_never_raises": "proved (model: no exception on any token stream)",
     "C16_no_residue": "proved", "C16_n_paints_nothing": "proved",
     "C16_gstack_untouched": "proved", "C16_qQ_restores": "proved", "C16_q_saves": "proved",
+    "C16_shape_tests": "proved (shape strings / point indices / redundant-l constants regenerated from "
+                       "converter.paint_path = the ones the property demands)",
+    "C16_square_coordinates": "proved (regenerated has_square_coordinates = axis-aligned quadrilateral)",
+    "C16_rect_under_ctm": "proved (every matrix, every re with w, h != 0: LTRect iff a=d=0,c!=0 or b=c=0,d!=0; "
+                          "points, original_path, flags, width, dash, colours)",
+    "C16_clip_does_not_paint": "proved (W, W* are no-ops on every state)",
+    "C16_paint_frame": "proved (painting operators and n clear the path and touch nothing else)",
+    "C16_clip_then_paint": "proved",
+    "C16_segment_operands": "proved (regenerated do_m do_l do_c do_v do_y append the ISO segment, operands in order)",
+    "C16_cm_composes": "proved (regenerated do_cm pre-multiplies: new matrix first, then the old CTM)",
+    "C16_one_shape_per_subpath": "proved (number of shapes with a segment = number of sub-paths with a segment)",
+    "C16_paint_attributes": "proved (every path, ill-formed included: flags, width, dash, colours of the call)",
+    "C16_painted_with_state_in_force": "proved (every painting operator on every interpreter state)",
+    "C16_no_start_no_shape": "proved (a path that does not begin with m paints nothing)",
+    "C16_initial_colour_bound": "proved (more than 32 components: no initial colour; regenerated bound)",
+    "C16_page_isolation": "proved (pages through one interpreter: page k's shapes depend on page k only; "
+                          "init_state's reset list regenerated)",
+    "C16_page_starts_fresh": "proved",
 }
 
 # --------------------------------------------------------------------------- operators
@@ -122,6 +149,21 @@ def to_content(ops, style_seed: int = 0) -> bytes:
             out.append(ser_operand(a, 0 if k % 3 else 1))
         out.append(op[0].encode())
     return b" ".join(out) + b"\n"
+
+
+def case_tokens(case) -> List[str]:
+    return tok_line(case).split(" ")[6:]
+
+
+def pages_line(cases) -> str:
+    """`pages` request of the driver: the set-up of the (shared) document, then the pages separated by `|`."""
+    head = tok_line(cases[0]).split(" ")[:6]
+    body: List[str] = []
+    for i, c in enumerate(cases):
+        if i:
+            body.append("|")
+        body.extend(case_tokens(c))
+    return " ".join(["pages"] + head + body)
 
 
 def tok_line(case) -> str:
@@ -258,9 +300,11 @@ def cs_resource(cs: Dict[str, Any]):
     return res, extra
 
 
-def run_impl(cases) -> List[Any]:
+def run_impl(cases, shared: bool = False) -> List[Any]:
     """All cases must share cs/rotate/mediabox (one document, one page per case).
-    Returns per case: list of shape dicts, or 'EXC:<Type>'."""
+    Returns per case: list of shape dicts, or 'EXC:<Type>'.
+    shared=True: ONE resource manager, device and interpreter for all pages, in order - what
+    extract_pages / extract_text / pdf2txt do; otherwise a fresh interpreter per page."""
     from pdfminer.converter import PDFPageAggregator
     from pdfminer.layout import LTCurve
     from pdfminer.pdfdocument import PDFDocument
@@ -270,16 +314,28 @@ def run_impl(cases) -> List[Any]:
     c0 = cases[0]
     res, extra = cs_resource(c0["cs"])
     page_extra = {"Rotate": c0["rotate"]} if c0["rotate"] else {}
+    resources: Dict[str, Any] = {"ColorSpace": res} if res else {}
+    if c0.get("form") is not None:
+        # a form XObject /Fm0 (object 9) whose content ends in a dangling state
+        extra = dict(extra)
+        extra[9] = W.Stream({"Type": "XObject", "Subtype": "Form", "BBox": [0, 0, 200, 200],
+                             "Matrix": [F(x) for x in c0.get("form_matrix", ["1", "0", "0", "1", "0", "0"])]},
+                            to_content(c0["form"]))
+        resources["XObject"] = {"Fm0": W.Ref(9)}
     data = W.simple_doc([to_content(c["ops"], i) for i, c in enumerate(cases)],
-                        resources={"ColorSpace": res} if res else {},
+                        resources=resources,
                         mediabox=[F(x) for x in c0["mediabox"]],
                         extra_objs=extra, page_extra=page_extra)
     doc = PDFDocument(PDFParser(io.BytesIO(data)))
     outs: List[Any] = []
+    rm = PDFResourceManager()
+    dev = PDFPageAggregator(rm, laparams=None)
+    it = PDFPageInterpreter(rm, dev)
     for page in PDFPage.create_pages(doc):
-        rm = PDFResourceManager()
-        dev = PDFPageAggregator(rm, laparams=None)
-        it = PDFPageInterpreter(rm, dev)
+        if not shared:
+            rm = PDFResourceManager()
+            dev = PDFPageAggregator(rm, laparams=None)
+            it = PDFPageInterpreter(rm, dev)
         try:
             it.process_page(page)
             lt = dev.get_result()
@@ -345,7 +401,7 @@ def cs_arity(cs: Dict[str, Any], name: str) -> Optional[Tuple[int, bool]]:
 
 def iso_init(family: str, n: int):
     """ISO 32000-1 Table 74 (operator CS): the initial colour of a colour space."""
-    if family == "Pattern" or n == 0:
+    if family == "Pattern" or n == 0 or n > 32:     # no colour space has more than 32 components
         return None
     if family == "DeviceCMYK":
         return (F(0), F(0), F(0), F(1))
@@ -552,7 +608,7 @@ CS_POOL = [
      "D4": ("devn", 4), "D1": ("devn", 1)},
 ]
 # colour spaces with a number of components other than 1, 3, 4 (used by every 8th document only)
-CS_ODD = {"D2": ("devn", 2), "D5": ("devn", 5), "I2": ("icc", 2)}
+CS_ODD = {"D2": ("devn", 2), "D5": ("devn", 5), "I2": ("icc", 2), "D32": ("devn", 32), "I33": ("icc", 33)}
 
 
 class Gen:
@@ -789,9 +845,32 @@ def make_wild(rng, case) -> Dict[str, Any]:
             ops[i], ops[j] = ops[j], ops[i]
         else:
             ops.insert(i, [rng.choice(["BX", "EX", "zz", "sc", "SCN", "Q", "h", "l"])])
+    if rng.random() < 0.25:       # a path object whose first construction operator is not m / re
+        ms = [i for i, o in enumerate(ops) if o[0] in ("m", "re")]
+        if ms:
+            i = rng.choice(ms)
+            if rng.random() < 0.5:
+                del ops[i]
+            else:
+                ops[i] = [rng.choice(["l", "h", "c", "v"])] + ops[i][1:]
     c = dict(case)
     c["ops"] = ops
     return c
+
+
+def path_without_m(ops) -> bool:
+    """Some path object's first construction operator is a segment / h (theorem C16_no_start_no_shape)."""
+    fresh = True
+    for o in ops:
+        if o[0] in PAINT or o[0] == "n":
+            fresh = True
+        elif o[0] in ("m", "re"):
+            if len(o) - 1 == NARGS[o[0]] and all(is_num(x) for x in o[1:]):
+                fresh = False
+        elif o[0] in ("l", "c", "v", "y", "h") and fresh:
+            if len(o) - 1 == NARGS[o[0]] and all(is_num(x) for x in o[1:]):
+                return True
+    return False
 
 
 # --------------------------------------------------------------------------- comparison
@@ -917,6 +996,320 @@ CLASSIFIERS = {
 }
 
 
+# --------------------------------------------------------------------------- theorem C16_rect_under_ctm on the code
+
+RECT_CTM_CLASSES = ("quarter", "scale", "mirror", "xcollapse", "ycollapse", "shear", "rot45", "general", "zero")
+
+
+def gen_rect_ctm(rng, cls: str) -> List[F]:
+    s = rng.choice([F(1), F(2), F(1, 2), F(3), F(-1), F(-2)])
+    t = rng.choice([F(1), F(2), F(1, 2), F(-3), F(-1, 2)])
+    e, f = dy(rng, -32, 32), dy(rng, -32, 32)
+    if cls == "quarter":
+        a, b, c, d = rng.choice([(0, 1, -1, 0), (0, -1, 1, 0), (-1, 0, 0, -1), (1, 0, 0, 1)])
+        return [a * s, b * s, c * s, d * s, e, f]
+    if cls == "scale":
+        return [s, F(0), F(0), t, e, f]
+    if cls == "mirror":
+        a, b, c, d = rng.choice([(-1, 0, 0, 1), (1, 0, 0, -1), (0, 1, 1, 0), (0, -1, -1, 0)])
+        return [a * s, b * s, c * t, d * t, e, f]
+    if cls == "xcollapse":      # the x direction is mapped to 0 or into the axis the y direction does not use
+        return rng.choice([[F(0), F(0), t, F(0), e, f], [F(0), F(0), F(0), t, e, f], [F(0), s, t, F(0), e, f]])
+    if cls == "ycollapse":      # c = d = 0: the 4th side becomes the closing segment
+        return rng.choice([[s, t, F(0), F(0), e, f], [s, F(0), F(0), F(0), e, f], [F(0), t, F(0), F(0), e, f]])
+    if cls == "shear":
+        k = rng.choice([F(1), F(-1, 2), F(2)])
+        return rng.choice([[s, F(0), k, t, e, f], [s, k, F(0), t, e, f], [F(0), s, t, k, e, f]])
+    if cls == "rot45":
+        return [s, s, -s, s, e, f]
+    if cls == "zero":
+        return [F(0), F(0), F(0), F(0), e, f]
+    m = [dy(rng, -4, 4, (1, 2, 4)) for _ in range(4)]
+    return [x if x != 0 else F(1) for x in m] + [e, f]
+
+
+def gen_rect_ctm_case(rng, cls: str) -> Dict[str, Any]:
+    """`a b c d e f cm  [w / d / colour]  x y w h re  [W | W*]  <paint>` on an unrotated page with origin 0 0."""
+    g = Gen(rng, {}, False, False)
+    g.emit("cm", *[num(x) for x in gen_rect_ctm(rng, cls)])
+    for _ in range(rng.choice([0, 0, 1, 2])):
+        r = rng.random()
+        if r < 0.3:
+            g.emit("w", num(abs(dy(rng, 0, 8))))
+        elif r < 0.5:
+            g.emit("d", [num(F(rng.randint(1, 6)))], num(F(0)))
+        else:
+            k = rng.choice(["g", "G", "rg", "RG", "k", "K"])
+            g.emit(k, *[num(F(rng.randint(0, 8), 8)) for _ in range(NARGS[k])])
+    w = rng.choice([-1, 1]) * abs(dy(rng, 1, 16))
+    h = rng.choice([-1, 1]) * abs(dy(rng, 1, 16))
+    g.emit("re", num(dy(rng)), num(dy(rng)), num(w), num(h))
+    if rng.random() < 0.3:
+        g.emit(rng.choice(["W", "W*"]))
+    g.emit(rng.choice(sorted(PAINT)))
+    return {"rotate": 0, "mediabox": ["0", "0", "612", "792"], "cs": {}, "ops": g.ops, "rect_ctm_class": cls}
+
+
+def rect_ctm_prediction(case) -> Optional[Tuple[str, List[str], Tuple[int, int, int]]]:
+    """For programs of the form above: what theorem C16_rect_under_ctm says about the ONE shape -
+    (class, points, (stroke, fill, evenodd)).  None for every other program."""
+    if case["rotate"] != 0 or [F(x) for x in case["mediabox"][:2]] != [0, 0]:
+        return None
+    ops = case["ops"]
+    if len(ops) < 3 or ops[0][0] != "cm" or ops[-1][0] not in PAINT:
+        return None
+    body = ops[1:-1]
+    if body and body[-1][0] in ("W", "W*"):
+        body = body[:-1]
+    if not body or body[-1][0] != "re" or any(o[0] not in ("w", "d", "g", "G", "rg", "RG", "k", "K") for o in body[:-1]):
+        return None
+    if len(ops[0]) != 7 or len(body[-1]) != 5 or not all(is_num(x) for x in ops[0][1:] + body[-1][1:]):
+        return None
+    a, b, c, d, e, f = [F(x) for x in ops[0][1:]]
+    x, y, w, h = [F(v) for v in body[-1][1:]]
+    if w == 0 or h == 0:
+        return None
+    T = lambda p: (a * p[0] + c * p[1] + e, b * p[0] + d * p[1] + f)     # noqa: E731
+    cor = [T((x, y)), T((x + w, y)), T((x + w, y + h)), T((x, y + h))]
+    rect = (a == 0 and d == 0 and c != 0) or (b == 0 and c == 0 and d != 0)
+    pts = cor if rect or (c == 0 and d == 0) else cor + [cor[0]]
+    st, fi, eo, _ = PAINT[ops[-1][0]]
+    return ("R" if rect else "C", [cpt(p) for p in pts], (st, fi, eo))
+
+
+def check_rect_ctm(ctx: C.Ctx, case, got) -> None:
+    pred = rect_ctm_prediction(case)
+    if pred is None or isinstance(got, str):
+        return
+    kind, pts, flags = pred
+    cls = case.get("rect_ctm_class", "other")
+    ctx.branch("rect-under-ctm:%s:%s%d" % (cls, kind, len(pts)))
+    exp = {"n": 1, "kind": kind, "pts": ";".join(pts), "s": flags[0], "f": flags[1], "e": flags[2]}
+    g = got[0] if len(got) == 1 else None
+    have = {"n": len(got)}
+    if g is not None:
+        have.update({"kind": g["kind"], "pts": g["pts"], "s": int(g["s"]), "f": int(g["f"]), "e": int(g["e"])})
+    if have != exp:
+        ctx.branch("propfail:rect-under-ctm")
+        ctx.fail(C.Failure("a rectangle (re) painted under a matrix is not the one shape theorem C16_rect_under_ctm "
+                           "states (LTRect iff a=d=0,c!=0 or b=c=0,d!=0; corners in path order)",
+                           {k: case[k] for k in ("rotate", "mediabox", "cs", "ops")}, exp, have,
+                           {"rect_under_ctm": True}))
+
+
+# --------------------------------------------------------------------------- pages through ONE interpreter
+
+DANGLING = ("segments", "closed", "re-clip", "lone-m", "q-state", "state", "q-path", "curve", "after-h", "none")
+
+
+def gen_dangling_case(rng, doc, kind: str) -> Dict[str, Any]:
+    """A well-formed page whose content ENDS in a dangling state: path construction that is never painted nor
+    ended with n (plain segments, a closed sub-path, a clip rectangle whose n is missing, a lone m, Bezier
+    segments, a segment after h), an unmatched q, changed colours / width / dash / CTM / colour spaces."""
+    g = Gen(rng, doc["cs"], False, kind == "after-h")
+    if rng.random() < 0.6:
+        g.emit("cm", *[num(x) for x in gen_matrix(rng)])
+    for _ in range(rng.randint(0, 2)):
+        for _ in range(rng.choice([0, 1, 2])):
+            g.state_op()
+        g.path_object()
+    if kind in ("q-state", "q-path"):
+        g.emit("q")
+        g.stack.append((g.ss, g.ns))
+    if kind in ("q-state", "state"):
+        g.emit("w", num(abs(dy(rng, 1, 8))))
+        g.emit("d", [num(F(rng.randint(1, 6)))], num(F(0)))
+        g.emit(rng.choice(["RG", "rg"]), *[num(F(rng.randint(0, 8), 8)) for _ in range(3)])
+        g.emit("cm", *[num(x) for x in gen_matrix(rng)])
+        for _ in range(rng.randint(0, 3)):
+            g.state_op(nested=True)
+    if kind in ("segments", "q-path"):
+        g.emit("m", *g.pt())
+        for _ in range(rng.randint(1, 3)):
+            g.emit("l", *g.pt())
+    elif kind == "closed":
+        g.emit("m", *g.pt())
+        g.emit("l", *g.pt())
+        g.emit("l", *g.pt())
+        g.emit("h")
+    elif kind == "re-clip":
+        g.emit("re", num(dy(rng)), num(dy(rng)), num(dy(rng, 1, 16)), num(dy(rng, 1, 16)))
+        g.emit(rng.choice(["W", "W*"]))
+    elif kind == "lone-m":
+        g.emit("m", *g.pt())
+    elif kind == "curve":
+        g.emit("m", *g.pt())
+        g.emit("c", *g.pt(), *g.pt(), *g.pt())
+        g.emit("v", *g.pt(), *g.pt())
+    elif kind == "after-h":
+        g.emit("re", num(dy(rng)), num(dy(rng)), num(dy(rng, 1, 16)), num(dy(rng, 1, 16)))
+        g.emit("l", *g.pt())
+    return {"rotate": doc["rotate"], "mediabox": doc["mediabox"], "cs": doc["cs"], "ops": g.ops, "dangling": kind}
+
+
+def doc_input(cases, k: int) -> Dict[str, Any]:
+    c0 = cases[0]
+    return {"rotate": c0["rotate"], "mediabox": c0["mediabox"], "cs": c0["cs"],
+            "pages": [c["ops"] for c in cases], "page": k}
+
+
+def pages_failures(cases, k: int) -> List[Dict[str, Any]]:
+    """Property on the implementation: page k of the document, all pages run through ONE interpreter, must
+    show exactly what its own program demands."""
+    try:
+        exp = spec_run(cases[k])
+    except OutsideDomain:
+        return []
+    got = run_impl(cases, shared=True)[k]
+    return diff_all(exp, visible(got))
+
+
+def report_pages_failure(ctx: C.Ctx, cases, k: int, d0) -> None:
+    sig = signature(d0)
+
+    def still(cs, kk) -> Optional[Dict[str, Any]]:
+        try:
+            for d in pages_failures(cs, kk):
+                if signature(d) == sig:
+                    return d
+        except Exception:  # noqa: BLE001
+            return None
+        return None
+    # fewest pages: one earlier page + the failing page, when that is enough
+    for j in range(k - 1, -1, -1):
+        if still([cases[j], cases[k]], 1) is not None:
+            cases, k = [cases[j], cases[k]], 1
+            break
+    # single page: not a page-isolation failure, report it as an ordinary one
+    if still([cases[k]], 0) is not None:
+        report_failure(ctx, cases[k], d0)
+        return
+    for idx in range(len(cases)):
+        if len(cases[idx]["ops"]) < 2:
+            continue
+
+        def keep(ops, idx=idx):
+            cand = list(cases)
+            cand[idx] = dict(cases[idx], ops=ops)
+            return still(cand, k) is not None
+        ops = C.ddmin(list(cases[idx]["ops"]), keep, max_tests=60)
+        cases = list(cases)
+        cases[idx] = dict(cases[idx], ops=ops)
+    d = still(cases, k) or d0
+    what = ("the shapes of a page depend on what an earlier page run through the same interpreter left behind "
+            "(unpainted path / graphics state): " + "; ".join(WHAT.get(f, f) for f in d["fields"][:3]))
+    ctx.fail(C.Failure(what, doc_input(cases, k), d["expected"], d["got"],
+                       {"pages": True, "fields": d["fields"], "npages": len(cases)}))
+
+
+def check_pages(ctx: C.Ctx, cases: List[Dict[str, Any]], seen_sigs: set) -> None:
+    """cases = the pages of ONE document in order.  Tie: Lean `runPagesFrom` (one interpreter state threaded
+    through the pages) vs the implementation with ONE interpreter; property: every page vs its own program."""
+    impl = run_impl(cases, shared=True)
+    model = None
+    if ctx.driver is not None:
+        model = ctx.driver.ask([pages_line(cases)])[0].split(" || ")
+        if len(model) != len(cases):
+            model = [model[0]] * len(cases)
+    for k, case in enumerate(cases):
+        got = impl[k]
+        got_line = got if isinstance(got, str) else page_line(got)
+        try:
+            exp = spec_run(case)
+            dom = True
+        except OutsideDomain:
+            exp, dom = None, False
+        painted = 0 if isinstance(got, str) else len(visible(got))
+        ctx.case(("pp", k, case["rotate"], tuple(case["mediabox"]), sorted(case["cs"].items()),
+                  json.dumps([c["ops"] for c in cases[:k + 1]])), k > 0 and painted > 0,
+                 sample={"page": k, "after": [c.get("dangling", "?") for c in cases[:k]],
+                         "content": to_content(case["ops"]).decode("latin-1")[:200]},
+                 branch="pages:domain" if dom else "pages:wild")
+        if k > 0:
+            ctx.branch("page-after:" + cases[k - 1].get("dangling", "?") + (":paints" if painted else ":empty"))
+        if model is not None and model[k] != got_line:
+            ctx.disagree("model-pages", doc_input(cases, k), got_line, model[k])
+        if dom:
+            for d in diff_all(exp, visible(got)):
+                ctx.branch("propfail:pages:" + "+".join(d["fields"]))
+                sig = ("pages", signature(d))
+                if sig not in seen_sigs and len(seen_sigs) < 12:
+                    seen_sigs.add(sig)
+                    report_pages_failure(ctx, cases, k, d)
+
+
+# --------------------------------------------------------------------------- form XObjects ending in a dangling state
+
+def gen_form_doc(rng) -> Dict[str, Any]:
+    """Document set-up + a form XObject /Fm0 whose content changes the graphics state and ends with an
+    unpainted path (and possibly an unmatched q): nothing of it may leak into the page that invokes it."""
+    doc = gen_doc(rng)
+    kind = rng.choice([k for k in DANGLING if k != "none"])
+    form = gen_dangling_case(rng, dict(doc, cs={}), kind)["ops"]
+    doc["form"] = form
+    doc["form_kind"] = kind
+    doc["form_matrix"] = [num(x) for x in gen_matrix(rng)]
+    return doc
+
+
+def gen_form_case(rng, doc) -> Dict[str, Any]:
+    case = gen_case(rng, doc)
+    ops = case["ops"]
+    # `Do` only between path objects (ISO: not inside path construction)
+    slots = [0] + [i + 1 for i, o in enumerate(ops) if o[0] in PAINT or o[0] == "n"]
+    out = []
+    chosen = set(rng.sample(slots, min(len(slots), rng.choice([1, 1, 2]))))
+    for i, o in enumerate(ops):
+        if i in chosen:
+            out.append(["Do", "/Fm0"])
+        out.append(o)
+    if len(ops) in chosen:
+        out.append(["Do", "/Fm0"])
+    return dict(case, ops=out, form=doc["form"], form_matrix=doc["form_matrix"], form_kind=doc["form_kind"])
+
+
+def form_failures(case) -> List[Dict[str, Any]]:
+    """Property for a page that invokes the dangling form: at top level it must show exactly what the page's
+    own program (without the `Do`s) demands."""
+    plain = dict(case, ops=[o for o in case["ops"] if o[0] != "Do"])
+    try:
+        exp = spec_run(plain)
+    except OutsideDomain:
+        return []
+    got = run_impl([case])[0]
+    return diff_all(exp, visible(got))
+
+
+def form_input(case) -> Dict[str, Any]:
+    return {k: case[k] for k in ("rotate", "mediabox", "cs", "ops", "form", "form_matrix")}
+
+
+def report_form_failure(ctx: C.Ctx, case, d0) -> None:
+    sig = signature(d0)
+
+    def fails(c) -> Optional[Dict[str, Any]]:
+        try:
+            for d in form_failures(c):
+                if signature(d) == sig:
+                    return d
+        except Exception:  # noqa: BLE001
+            return None
+        return None
+
+    ops = C.ddmin(list(case["ops"]), lambda o: any(x[0] == "Do" for x in o) and fails(dict(case, ops=o)) is not None,
+                  max_tests=80)
+    small = dict(case, ops=ops)
+    if len(small["form"]) >= 2:
+        form = C.ddmin(list(small["form"]), lambda f: fails(dict(small, form=f)) is not None, max_tests=60)
+        small = dict(small, form=form)
+    d = fails(small)
+    if d is None:
+        small, d = case, d0
+    ctx.fail(C.Failure("a form XObject whose content ends with an unpainted path / changed graphics state leaks "
+                       "into the page that invokes it: " + "; ".join(WHAT.get(f, f) for f in d["fields"][:3]),
+                       form_input(small), d["expected"], d["got"], {"form": True, "fields": d["fields"]}))
+
+
 # --------------------------------------------------------------------------- running a batch
 
 def check_batch(ctx: C.Ctx, cases: List[Dict[str, Any]], in_domain: bool, seen_sigs: set) -> None:
@@ -947,10 +1340,21 @@ def check_batch(ctx: C.Ctx, cases: List[Dict[str, Any]], in_domain: bool, seen_s
                  branch="domain" if dom else "wild")
         for k in opnames:
             ctx.branch("op:" + k)
+        if not dom and path_without_m(case["ops"]):
+            ctx.branch("wild:path-without-m")
+        if case.get("form") is not None and "Do" in opnames:
+            ctx.branch("form-dangling:" + case.get("form_kind", "?") + (":page-paints" if painted else ":empty"))
         for o in case["ops"]:
             if (o[0] in NUM_ARITY or o[0] in ("sc", "scn", "SC", "SCN")) and not all(is_num(x) for x in o[1:]):
                 pos = [i for i, x in enumerate(o[1:]) if not is_num(x)]
                 ctx.branch("badoperand:%s:pos%d/%d" % (o[0], pos[0], len(o) - 1))
+        if dom and in_domain:
+            check_rect_ctm(ctx, case, got)
+        if any(o[0] in ("W", "W*") for o in case["ops"]):
+            nxt = [case["ops"][j + 1][0] if j + 1 < len(case["ops"]) else "end"
+                   for j, o in enumerate(case["ops"]) if o[0] in ("W", "W*")]
+            for k in nxt:
+                ctx.branch("clip-then:" + k)
         if isinstance(got, str):
             ctx.branch("impl:" + got)
         else:
@@ -967,6 +1371,19 @@ def check_batch(ctx: C.Ctx, cases: List[Dict[str, Any]], in_domain: bool, seen_s
             elif lean_spec[i] != "outside-domain":
                 ctx.disagree("spec-domain", {k: case[k] for k in ("rotate", "mediabox", "cs", "ops")},
                              "outside-domain", lean_spec[i])
+        if case.get("form") is not None and "Do" in opnames and not isinstance(got, str):
+            plain = dict(case, ops=[o for o in case["ops"] if o[0] != "Do"])
+            try:
+                exp2 = spec_run(plain)
+            except OutsideDomain:
+                exp2 = None
+            if exp2 is not None:
+                for d in diff_all(exp2, visible(got)):
+                    ctx.branch("propfail:form:" + "+".join(d["fields"]))
+                    sig = ("form", signature(d))
+                    if sig not in seen_sigs and len(seen_sigs) < 12:
+                        seen_sigs.add(sig)
+                        report_form_failure(ctx, case, d)
         if dom and in_domain:
             for d in diff_all(exp, visible(got)):
                 ctx.branch("propfail:" + "+".join(d["fields"]))
@@ -988,10 +1405,19 @@ def run_corpus(ctx: C.Ctx) -> None:
 def replay(ctx: C.Ctx, doc, from_corpus: bool = False) -> None:
     logging.disable(logging.CRITICAL)
     inp = doc.get("input", doc)
+    if "pages" in inp:
+        cases = [{"rotate": inp.get("rotate", 0), "mediabox": inp.get("mediabox", ["0", "0", "612", "792"]),
+                  "cs": {k: list(v) for k, v in inp.get("cs", {}).items()}, "ops": ops} for ops in inp["pages"]]
+        ctx.branch("corpus:pages" if from_corpus else "replay:pages")
+        check_pages(ctx, cases, set())
+        return
     if "ops" not in inp:
         return
     case = {"rotate": inp.get("rotate", 0), "mediabox": inp.get("mediabox", ["0", "0", "612", "792"]),
             "cs": {k: list(v) for k, v in inp.get("cs", {}).items()}, "ops": inp["ops"]}
+    if inp.get("form") is not None:
+        case["form"] = inp["form"]
+        case["form_matrix"] = inp.get("form_matrix", ["1", "0", "0", "1", "0", "0"])
     ctx.branch("corpus" if from_corpus else "replay")
     check_batch(ctx, [case], True, set())
 
@@ -1001,6 +1427,30 @@ def run(ctx: C.Ctx) -> None:
     run_corpus(ctx)
     rng = ctx.rng
     seen: set = set()
+    # theorem C16_rect_under_ctm against the code: every matrix class x every painting operator
+    for rep in range(ctx.n(1, 12)):
+        cases = [gen_rect_ctm_case(rng, cls) for cls in RECT_CTM_CLASSES for _ in range(6)]
+        check_batch(ctx, cases, True, seen)
+    # page isolation (theorem C16_page_isolation): documents of 2-4 pages run through ONE interpreter, every
+    # page but the last ending in a dangling state (each kind in turn)
+    for rep in range(ctx.n(20, 400)):
+        if not ctx.time_left():
+            break
+        doc = gen_doc(rng)
+        if rep % 5 == 4:
+            doc["rotate"] = 0
+        npages = rng.choice([2, 2, 3, 4])
+        kinds = [DANGLING[(rep * 3 + i) % len(DANGLING)] for i in range(npages)]
+        cases = [gen_dangling_case(rng, doc, kinds[i]) if i < npages - 1 or rng.random() < 0.3
+                 else dict(gen_case(rng, doc), dangling="none") for i in range(npages)]
+        check_pages(ctx, cases, seen)
+    # form XObjects whose content ends in a dangling state, invoked between the page's path objects (tie only:
+    # the model says `Do` consumes its operand and changes nothing the page can see at top level)
+    for rep in range(ctx.n(10, 200)):
+        if not ctx.time_left():
+            break
+        doc = gen_form_doc(rng)
+        check_batch(ctx, [gen_form_case(rng, doc) for _ in range(6)], False, seen)
     ndocs = ctx.n(240, 6000)
     per = 12
     for di in range(ndocs):
